@@ -22,6 +22,18 @@ CLAIMED = {
         technique="TLA+ spec + TLC exhaustive state graph, edge-cover replay into the implementation",
         ref="5/C25",
     ),
+    "C15": dict(
+        level="model_checking",
+        text="Coo.tla models CooMatrix as an accumulate-into-dense state machine (index arrays/slices/ints with Python slice "
+             "semantics; dense, 1-D, scipy sparse, nested-container, None and wrong-shape writes). TLC proves on the catalogue that the "
+             "triplet list built like __setitem__ builds it means the dense sum; every catalogue write and long simulated write "
+             "sequences are replayed into real CooMatrix objects and all conversions compared with the spec accumulator after every write.",
+        note="Exhaustive for single writes from the empty container on shapes up to 2x3/3x2 (writes are independent appends); "
+             "sequences of up to 40 overlapping writes on shapes up to 5x5 by TLC simulation. Integer-valued blocks so float sums are exact. "
+             "Negative entries in index arrays are outside the model (the container stores unsigned indices).",
+        technique="TLA+ spec + TLC exhaustive catalogue / simulation, replay into the implementation",
+        ref="5/C15",
+    ),
 }
 
 NOT_APPLICABLE = {
